@@ -57,6 +57,10 @@ CHECKS = {
    text="Explicit exploration of fit histories on one ConfigLoader session with a tiny weighted model: every minimiser name (BFGS, CG, L-BFGS-B, Newton-CG, trust-ncg, trust-krylov, trust-exact, the three Hessian-vector-product variants, iminuit) x constraint sets (none, fixed, tied, two-sided bound inactive/active, lower, upper, Gaussian, Gaussian+bound on one parameter) x start points x iteration limits as single fits (quick: every name on 3 sets, 4 representative names on all 9), and ordered pairs of fits in one session (quick 12 pairs, thorough all 121 x 3 sets). After every fit: result vs model state bit-for-bit, reported minimum = recomputed NLL, not above the start, fixed bitwise, tied equal, bounds, save_as / save_params -> set_params(file) into a freshly built model reproduces parameters and NLL. An exception out of fit is a violation.",
    note="Tiny model (3-5 free parameters); convergence quality is not judged; bound slack 1e-9 relative.",
    technique="explicit-state exploration of fit histories on the implementation with invariants after every transition"),
+ "C04": dict(level="exploration", ref="4-C04",
+   text="Cards with a spin-0 parent and three spinless finals: resonance spins J=0..4 x three slots x (m0 at 30/70/5 % of the allowed range) x Gamma0 x three final-state mass sets for single chains, all 25 J pairs for every pair of slots, J triples for all three chains, complex couplings from a 5-element menu; Dalitz lattices in two orientations with every third event in a frame where the parent moves; oracle: |sum_k c_k (-1)^J p^J q^J B_J B_J BW_k P_J(cos theta_k)|^2 evaluated in numpy from the four-momenta.",
+   note="Nominal masses inside the kinematically allowed range (outside it the statement fixes no continuation); lattice events; 1e-9 relative.",
+   technique="bounded-exhaustive enumeration of decay cards x event lattices against an independent closed-form reference"),
 }
 
 NA_REASON = "check not built yet in this round (planned in DESIGN.md section 4)"
